@@ -1033,7 +1033,10 @@ def _register_vector_gradient_rules() -> None:
 
         for var in vec._variables:
             if var.name == wrt.name:
-                if k == 1:
+                if k == 0:
+                    # same as the scalar power rule: 0 * x^(-1) would be NaN at x = 0
+                    return Constant(0.0)
+                elif k == 1:
                     return Constant(1.0)
                 elif k == 2:
                     return BinaryOp(Constant(2.0), var, "*")
